@@ -413,7 +413,11 @@ func init() {
 	intrinsics["sort.Slice"] = sortSlice(false)
 	intrinsics["sort.SliceStable"] = sortSlice(true)
 	intrinsics["sort.Strings"] = func(fr *frame, fn *ssa.Function, a []value) value {
-		needConcrete(a[0])
+		if !allConcrete(a[0]) {
+			sl := a[0].([]value)
+			sort.Sort(&strSorter{fr: fr, sl: sl})
+			return nil
+		}
 		sl := a[0].([]value)
 		ss := make([]string, len(sl))
 		for k, e := range sl {
@@ -499,6 +503,18 @@ func needConcrete(v value) {
 		panic(unsupported("symbolic data passed to a concrete-only intrinsic"))
 	}
 }
+
+// strSorter sorts possibly symbolic strings (comparisons fork the path).
+type strSorter struct {
+	fr *frame
+	sl []value
+}
+
+func (s *strSorter) Len() int { return len(s.sl) }
+func (s *strSorter) Less(a, b int) bool {
+	return s.fr.i.p.Branch(strLtTerm(s.fr.f(), s.sl[a], s.sl[b]))
+}
+func (s *strSorter) Swap(a, b int) { s.sl[a], s.sl[b] = s.sl[b], s.sl[a] }
 
 type sliceSorter struct {
 	fr   *frame
